@@ -80,3 +80,120 @@ Qed.
 Theorem tie_reg_jobs s :
   GenRegistry.reg_jobs (regof s) = match cb_step s CJobs [] with (s', Ok (VIds l)) => Ok (regof s', map (tj s) l) | _ => Err OtherError end.
 Proof. reflexivity. Qed.
+
+(* ---- asyncio front end: Scheduler._jobs is a dict Job -> Task ------------------------------------------- *)
+From Sv Require Import Aio SchedProofs AioProofs.
+
+Definition atj (s : aio) (id : nat) : pytagjob := mkPyTagJob id (a_job_tags s id).
+Definition aregof (s : aio) : list pytagjob := map (atj s) (a_reg s).
+
+Lemma aio_delete_job_spec jobs cancels job :
+  GenRegistry.aio_delete_job jobs cancels job =
+    if tagjob_mem job jobs then Ok (tagjob_remove job jobs, cancels ++ [ptj_id job]) else Err SchedulerError.
+Proof. unfold GenRegistry.aio_delete_job. destruct (tagjob_mem job jobs); reflexivity. Qed.
+
+Lemma a_cancel_tags s id self x : a_job_tags (a_cancel s id self) x = a_job_tags s x.
+Proof.
+  unfold a_cancel. destruct (a_get s id) as [a|] eqn:Hg; [|reflexivity].
+  unfold a_job_tags, a_get, a_set. cbn [a_jobs].
+  destruct (Nat.eq_dec id x) as [->|Hne].
+  - rewrite lookup_update_same by (unfold a_get in Hg; congruence). unfold a_get in Hg. rewrite Hg.
+    destruct (match self with Some x0 => Nat.eqb x0 x | None => false end); [reflexivity|]. destruct (aj_phase a); reflexivity.
+  - rewrite lookup_update_other by exact Hne. reflexivity.
+Qed.
+Lemma a_cancel_reg s id self : aio_inv s -> In id (a_reg s) -> a_reg (a_cancel s id self) = remove_id id (a_reg s).
+Proof.
+  intros Hi Hin. destruct (ai_reg s Hi id Hin) as (a & Ha & _). unfold a_cancel. rewrite Ha. reflexivity.
+Qed.
+Lemma amem_map s x l : tagjob_mem (atj s x) (map (atj s) l) = nmem x l.
+Proof.
+  unfold tagjob_mem. induction l as [|y t IH]; [reflexivity|]. cbn [map existsb nmem].
+  rewrite IH. cbn [ptj_id atj]. rewrite Nat.eqb_sym. reflexivity.
+Qed.
+Lemma afilter_map s (p : nat -> bool) (q : pytagjob -> bool) l :
+  (forall id, q (atj s id) = p id) -> filter q (map (atj s) l) = map (atj s) (filter p l).
+Proof.
+  intros H. induction l as [|y t IH]; [reflexivity|]. cbn [map filter]. rewrite H. destruct (p y); cbn [map]; rewrite IH; reflexivity.
+Qed.
+Lemma aregof_cancel s id self : aio_inv s -> In id (a_reg s) ->
+  aregof (a_cancel s id self) = tagjob_remove (atj s id) (aregof s).
+Proof.
+  intros Hi Hin. unfold aregof. rewrite (a_cancel_reg s id self Hi Hin).
+  unfold tagjob_remove, remove_id. rewrite (afilter_map s (fun k => negb (Nat.eqb k id))) by (intros k; reflexivity).
+  apply map_ext. intros x. unfold atj. rewrite a_cancel_tags. reflexivity.
+Qed.
+
+Theorem tie_aio_delete_job s id self c :
+  aio_inv s ->
+  GenRegistry.aio_delete_job (aregof s) c (atj s id) =
+    match a_op s (ADelete id) self with
+    | (s', Ok _) => Ok (aregof s', c ++ [id])
+    | (_, Err e) => Err e
+    end.
+Proof.
+  intros Hi. rewrite aio_delete_job_spec. cbn [a_op]. unfold aregof at 1. rewrite amem_map.
+  destruct (nmem id (a_reg s)) eqn:E; [|reflexivity].
+  apply nmem_In in E. rewrite (aregof_cancel s id self Hi E). reflexivity.
+Qed.
+
+(* deleting a selection: one pop + cancel per selected job, in the selection's order *)
+Lemma aio_delete_fold self sel : forall s c,
+  aio_inv s -> NoDup sel -> (forall x, In x sel -> In x (a_reg s)) ->
+  forall tagsof, (forall x, tagsof x = a_job_tags s x) ->
+  foldM (fun st job => GenRegistry.aio_delete_job (fst st) (snd st) job) (map (fun id => mkPyTagJob id (tagsof id)) sel) (aregof s, c) =
+    Ok (aregof (fold_left (fun st id => a_cancel st id self) sel s), c ++ sel).
+Proof.
+  induction sel as [|id r IH]; intros s c Hi Hnd Hsub tagsof Ht.
+  - cbn. rewrite app_nil_r. reflexivity.
+  - cbn [map foldM fold_left fst snd]. rewrite (Ht id). change (mkPyTagJob id (a_job_tags s id)) with (atj s id).
+    rewrite (tie_aio_delete_job s id self c Hi). cbn [a_op].
+    assert (Hin : In id (a_reg s)) by (apply Hsub; left; reflexivity).
+    assert (Hm : nmem id (a_reg s) = true) by (apply nmem_In; exact Hin). rewrite Hm. cbn [bind ptj_id].
+    destruct (a_cancel_inv s id self Hi) as (Hi' & _ & _).
+    inversion Hnd as [|? ? Hnotin Hnd']; subst.
+    rewrite (IH (a_cancel s id self) (c ++ [id]) Hi' Hnd').
+    + rewrite <- app_assoc. reflexivity.
+    + intros x Hx. rewrite (a_cancel_reg s id self Hi Hin). apply remove_id_In. split; [apply Hsub; right; exact Hx|].
+      intros ->. contradiction.
+    + intros x. rewrite a_cancel_tags. apply Ht.
+Qed.
+
+Theorem tie_aio_delete_jobs s tags any self :
+  aio_inv s ->
+  GenRegistry.aio_delete_jobs (aregof s) [] tags any =
+    match a_op s (ADeleteJobs tags any) self with
+    | (s', Ok (VInt n)) =>
+        Ok (aregof s', match tags with None | Some [] => a_reg s | Some tg => a_select s tg any end, n)
+    | (_, Ok _) => Err OtherError
+    | (_, Err e) => Err e
+    end.
+Proof.
+  intros Hi. unfold GenRegistry.aio_delete_jobs. cbv zeta. cbn [a_op].
+  assert (Hall : forall sel, NoDup sel -> (forall x, In x sel -> In x (a_reg s)) ->
+     bind (foldM (fun st job => GenRegistry.aio_delete_job (fst st) (snd st) job) (map (atj s) sel) (aregof s, []))
+          (fun st => Ok (fst st, snd st, Z.of_nat (length (map (atj s) sel)))) =
+     Ok (aregof (fold_left (fun st id => a_cancel st id self) sel s), sel, Z.of_nat (length sel))).
+  { intros sel Hnd Hsub. change (map (atj s) sel) with (map (fun id => mkPyTagJob id (a_job_tags s id)) sel).
+    rewrite (aio_delete_fold self sel s [] Hi Hnd Hsub (a_job_tags s) (fun x => eq_refl)).
+    cbn [bind fst snd app]. rewrite map_length. reflexivity. }
+  destruct tags as [[|t0 tg]|]; cbn [is_nil].
+  - apply (Hall (a_reg s)); [apply Hi|auto].
+  - assert (Hs : GenSelect.select_jobs_by_tag (aregof s) (t0 :: tg) any = Ok (map (atj s) (a_select s (t0 :: tg) any))).
+    { rewrite tie_select_jobs_by_tag. unfold aregof, a_select. f_equal. apply afilter_map. intros id. reflexivity. }
+    rewrite Hs. cbn [bind]. apply Hall.
+    + unfold a_select. apply NoDup_filter. apply Hi.
+    + intros x Hx. unfold a_select in Hx. apply filter_In in Hx. tauto.
+  - apply (Hall (a_reg s)); [apply Hi|auto].
+Qed.
+
+Theorem tie_aio_get_jobs s tags any c self :
+  GenRegistry.aio_get_jobs (aregof s) c tags any =
+    match a_op s (AGetJobs tags any) self with
+    | (s', Ok (VIds l)) => Ok (aregof s', c, map (atj s) l)
+    | (_, Ok _) => Err OtherError
+    | (_, Err e) => Err e
+    end.
+Proof.
+  unfold GenRegistry.aio_get_jobs. cbn [a_op]. destruct tags as [[|t0 tg]|]; cbn [is_nil]; try reflexivity.
+  rewrite tie_select_jobs_by_tag. cbn [bind]. unfold aregof, a_select. do 3 f_equal. apply afilter_map. intros id. reflexivity.
+Qed.
